@@ -34,6 +34,7 @@ CHECKS = {
     "C07": ("robot", ROBOT_TECH + " x exhaustive fault plans (every callback site x first/second/every call, all site pairs); differential oracle against the fault-free run", ROBOT_TEXT, "4 (robot engine, C07)"),
     "C10": ("robot", ROBOT_TECH + " x all 16 assignment scripts x single fault plans; reset model replayed over the observed callback order", ROBOT_TEXT, "4 (robot engine, C10)"),
     "C11": ("robot", ROBOT_TECH + " x fault plans on getters; independent NetworkTables read after every iteration", ROBOT_TEXT, "4 (robot engine, C11)"),
+    "C15": ("sa", "bounded exhaustive exploration (prefix-replay DFS) of generated StatefulAutonomous subclasses over all on_enable / on_iteration(tm) / dashboard-edit sequences and in-state actions, lock-step reference model", "Every operation sequence up to the stated depth, over several autonomous periods on the same instance, is executed on the real class and compared with a reference model whose periods are independent by construction.", "4 (sa engine)"),
     "C20": (
         "crc",
         "explicit-state BFS over the closed 128-state checksum register through the real crc7(), plus exhaustive error-pattern and short-message enumeration",
